@@ -12,12 +12,12 @@ CLAIMED = {
    note="Not proved: a recursive spec of list *contents* (count, bound, exact accounting and per-element use of NewValue are proved; element-wise equality follows from the recursive contracts but is not stated as one closed formula). signature.MakeReader (goparsec parser) is an assumed contract. Implementer preconditions (non-nil component readers/elements) are assumptions listed in the evidence. newOpaque maps signature 'o' to the long object-reference signature by design (clause scoped to sig != \"o\").",
    technique="contract-based deductive verification: VC generation over go/ssa, SMT (z3/cvc5)", ref="7 C02"),
  "C07": dict(level="proof",
-   text="For the decoders under contract (ReadN, fixed-width readers, ReadString, Header/Message.Read, all dynamic-value decoders, all TypeReaders) with NO precondition on the bytes: every index/slice/nil/make/type-assertion/division obligation of the safety sweep, every data-dependent allocation bounded by a named limit (alloc#n), every loop with a decreases clause, and loops whose trip count comes from the wire must make progress (progress#n).",
-   note="Covered entry points: message, basic, dynamic values, signature-driven readers. NOT yet covered (not under contract in this phase, listed so nothing is over-claimed): generated meta-object/object-reference/service-info decoders, capability map, reflection decoder, stub argument decoders; signature.Parse and the IDL parser (goparsec) are outside the verifier's reach. Memory/time 'modest multiple' is covered only through alloc bounds + progress, not a quantitative meter.",
+   text="For the decoders under contract (ReadN, fixed-width readers, ReadString, Header/Message.Read, all dynamic-value decoders, all TypeReaders, ReadCapabilityMap, the generated meta-object/object-reference/service-info decoders) with NO precondition on the bytes: every index/slice/nil/make/type-assertion/division obligation of the safety sweep, every data-dependent allocation bounded by a named limit (alloc#n), every loop with a decreases clause, and loops whose trip count comes from the wire must make progress (progress#n).",
+   note="Covered entry points: message, basic, dynamic values, signature-driven readers, capability map, generated meta-object / object-reference / service-info decoders (type/object, bus/directory). NOT covered (listed so nothing is over-claimed): reflection decoder, the other generated files' decoders (logger, services proxy), stub argument decoders beyond the Object stub; signature.Parse and the IDL parser (goparsec) are outside the verifier's reach (no bounded stand-in built yet). Memory/time 'modest multiple' is covered only through alloc bounds + progress, not a quantitative meter.",
    technique="contract-based deductive verification: zero-precondition safety sweep + alloc/progress obligations, SMT", ref="7 C07"),
  "C08": dict(level="proof",
    text="Sticky-failure ghost r.short: ReadN sets it exactly when it fails and fails whenever fewer than length bytes remain; every decoder under contract is verified to return an error whenever r.short became true during the call (no swallowed error) and, for fixed-width decoders, whenever fewer bytes than needed remain.",
-   note="From obligations to the statement uses the paper lemma 'a decoder run is a function of the bytes it consumed' (DESIGN.md §7 C08). Decoders covered: message, basic, dynamic values, TypeReaders; generated meta-object/service-info decoders, capability map and the reflection decoder are not yet under contract.",
+   note="From obligations to the statement uses the paper lemma 'a decoder run is a function of the bytes it consumed' (DESIGN.md §7 C08). Decoders covered: message, basic, dynamic values, TypeReaders, capability map, generated meta-object / object-reference / service-info decoders; the reflection decoder and the logger/services generated decoders are not under contract.",
    technique="contract-based deductive verification: ghost-state postconditions on every decoder, SMT", ref="7 C08"),
  "C16": dict(level="proof",
    text="serviceImpl's object table under the monitor rule: Remove is verified to delete exactly the named object from both the object map and the mailbox map inside one critical section, call its OnTerminate exactly once, leave every other entry unchanged, and to change nothing for an unknown id; Receive answers a message for an id without mailbox with exactly one error reply; Add reserves an id that is free at reservation time and leaves nothing behind when activation fails; Terminate keeps the lock discipline; every access to the two maps carries a guard obligation (lock held in the right mode) and every Lock/Unlock a lock-state obligation.",
